@@ -31,6 +31,13 @@ def inline_silent_rules(expr: Expression, rules: Mapping[str, Rule]) -> Expressi
     if isinstance(expr, Identifier):
         # A reference to a rule that is not defined is left for parse time.
         rule = rules.get(expr.value)
-        if rule and rule.modifier & SILENT and not expr.tag:
+        if (
+            rule
+            and rule.modifier & SILENT
+            and not expr.tag
+            # The implicit rules are atomic even when they are referenced
+            # explicitly. Their bodies only mean the same inside an atomic rule.
+            and rule.name not in ("WHITESPACE", "COMMENT")
+        ):
             return rule.expression
     return expr
